@@ -1,4 +1,5 @@
 import PikaVerif.Model.Aff
+import PikaVerif.Model.AffCmd
 import Driver.Util
 /-! Driver for the affinity model (C15): recomputes, from the Lean model, every line the E0
     harness `harness/e0/affinity.cpp` prints from the real pika code and compares them;
@@ -14,11 +15,12 @@ def joinDots (l : List Nat) : String := ".".intercalate (l.map toString)
 /-- header `topo=2.2/2.2` (sockets `/`, cores `.`; prefix `np:` = no package objects) -/
 def parseTopo (s : String) : Topo × Bool :=
   let np := s.startsWith "np:"
-  let body := if np then (s.drop 3).toString else s
+  let pc := s.startsWith "pc:"        -- no core objects: the PUs are counted as cores
+  let body := if np || pc then (s.drop 3).toString else s
   let socks := (body.splitOn "/").map dots
   let cores := socks.flatten
   ({ nc := cores.length, pus := fun c => cores.getD c 1,
-     socks := if np then [] else socks.map List.length }, np)
+     socks := if np then [] else socks.map List.length, noCoreObjs := pc }, np)
 
 def kvOf (l : String) : List (String × String) :=
   (l.splitOn " ").filterMap (fun kv => match kv.splitOn "=" with
@@ -153,6 +155,13 @@ def liveMonitors (bind : String) (use : Bool) (pm : List Nat) (req : Option Nat)
     if (ws.filter (fun (g', _, _, _, _) => g' == g)).length != 1 then s!"live: worker {g} listed in more than one pool" :: acc else acc) []
   c1 ++ c2 ++ c3.reverse ++ c4.reverse ++ c5.reverse
 
+def threadsArgOf (s : String) : ThreadsArg :=
+  if s == "-" then .dflt else if s == "cores" then .cores else if s == "all" then .all
+  else .num (s.toNat?.getD 0)
+
+def coresArgOf (s : String) : CoresArg :=
+  if s == "-" then .dflt else if s == "all" then .all else .num (s.toNat?.getD 0)
+
 def runLive (c : Case) : String :=
   let tl := firstWith c.lines "topo "
   let tkv := kvOf tl
@@ -163,13 +172,16 @@ def runLive (c : Case) : String :=
   let use := c.getNat "use" != 0
   let pmL := if c.get "mask" == "all" then implPm else dots (c.get "mask")
   let cfg0 : Cfg := { t := t, pm := fun q => pmL.contains q, usePm := use, used := 0, maxCores := 0, n := 0 }
-  let nAll := if use then countMask cfg0 else numPus t
-  let nCores := if use then ((List.range t.nc).filter (fun cc => (List.range (t.pus cc)).any (fun p => cfg0.pm (base t cc + p)))).length else t.nc
   let thr := c.get "threads"
-  let n := if thr == "all" then nAll else if thr == "cores" then nCores else thr.toNat?.getD 0
-  let maxc := if c.getNat "cores" == 0 then n else c.getNat "cores"
-  let cfg : Cfg := { cfg0 with n := n, maxCores := maxc }
-  let ctx := s!"bind {bind}, threads {thr}, " ++ (if use then "process mask used" else if maxc < n then "process mask ignored, cores below thread count" else "process mask ignored")
+  -- thread count and `pika.cores` as the command-line model computes them (Model/AffCmd.lean)
+  let cmd : Cmd := { threads := threadsArgOf thr,
+                     cores := if c.getNat "cores" == 0 then .dflt else .num (c.getNat "cores"),
+                     ignoreMask := !use, bind := modeOf bind }
+  let cfg : Cfg := (cmdCfg cmd t cfg0.pm).getD cfg0
+  let n := cfg.n
+  let maxc := cfg.maxCores
+  let ctx := s!"bind {bind}, threads {n}, " ++ (if use then "process mask used" else if maxc < n then "process mask ignored, cores below thread count" else "process mask ignored") ++
+    (if thr == "all" || thr == "cores" then s!", --pika:threads={thr}" else "")
   let mon := liveMonitors bind use pmL (if maxc < n && !use then some n else some n) ctx c.lines
   let monS := if mon.isEmpty then "monitors ok" else "monitors FAIL: " ++ " | ".intercalate mon
   let hd := firstWith c.lines "live "
@@ -208,8 +220,61 @@ def runLive (c : Case) : String :=
     let firstDiff := ((impl.zip expect).find? (fun (a, b) => a != b)).getD (toString impl.length ++ " lines", toString expect.length ++ " lines")
     s!"case {c.id} reject 0 [live: model '{firstDiff.2}' impl '{firstDiff.1}'] ; {monS}"
 
+/-! ### command-line layer (harness/e0/affinity_cmd.cpp): `command_line_handling::call` +
+    `affinity_data::init` under synthetic machines -/
+
+def runCmd (c : Case) : String :=
+  let (t, np) := parseTopo (c.get "topo")
+  let use := c.getNat "use" != 0
+  let bind := c.get "bind"
+  let thr := c.get "threads"
+  let reqPm := if c.get "mask" == "all" then List.range (numPus t) else dots (c.get "mask")
+  let cmd : Cmd := { threads := threadsArgOf thr, cores := coresArgOf (c.get "cores"),
+                     ignoreMask := !use, bind := modeOf bind }
+  let tl := firstWith c.lines "topo "
+  let implCmd := firstWith c.lines "cmd "
+  let implInit := firstWith c.lines "init "
+  let tkv := kvOf tl
+  let implPm := dots (look tkv "pm")
+  let npus := (look tkv "npus").toNat?.getD 0
+  let ckv := kvOf implCmd
+  let implN := (look ckv "threads").toNat?.getD 0
+  let implCores := (look ckv "cores").toNat?.getD 0
+  let implUse := look ckv "use" != "0"
+  if c.status != "ok" then s!"case {c.id} reject 0 [end {c.status}] ; monitors FAIL: cmd: harness ended with '{c.status}'" else
+  -- monitors: observables of the implementation only
+  let kw := thr == "-" || thr == "cores" || thr == "all"
+  let m1 := if implCmd.startsWith "cmd ok" then
+      (if implUse != use then [s!"cmd: use_process_mask is {implUse} for a request with ignore-process-mask={!use}"] else []) ++
+      (match thr.toNat? with
+       | some k => if implN != k then [s!"cmd: {implN} threads configured for --pika:threads={k}"] else []
+       | none => []) ++
+      (if kw && implInit.startsWith "init error tooMany" then
+        [s!"cmd: thread-count keyword '{thr}' gives {implN} threads, rejected as oversubscription (bind {bind})"] else []) ++
+      monitorLine "init" bind implN npus implUse implPm implCores ((look tkv "nc").toNat?.getD 0) implInit
+    else if implCmd.startsWith "cmd error" then
+      (if kw then [s!"cmd: start-up with --pika:threads={thr} rejected as zero threads (bind {bind})"]
+       else if thr != "0" then [s!"cmd: command line with --pika:threads={thr} rejected"] else [])
+    else [s!"cmd: no result line"]
+  let monS := if m1.isEmpty then "monitors ok" else "monitors FAIL: " ++ " | ".intercalate m1
+  match cmdCfg cmd t (fun q => reqPm.contains q) with
+  | none =>
+    if implCmd.startsWith "cmd error zeroThreads" then s!"case {c.id} accept 1 ; final ok ; {monS}"
+    else s!"case {c.id} reject 0 [model 'cmd error zeroThreads' impl '{implCmd}'] ; {monS}"
+  | some cfg =>
+    let topoExp := s!"topo nc={t.nc} npus={numPus t} ns={if np then 0 else t.socks.length} pus={joinDots ((List.range t.nc).map t.pus)} socks={joinDots t.socks} pm={joinDots reqPm} hwc={numPus t}"
+    let cmdExp := s!"cmd ok threads={cfg.n} cores={cfg.maxCores} use={if use then 1 else 0} bind={bind}"
+    let initExp := match affInitMasks cmd.bind cfg with
+      | .bound aff pn => (if bind == "none" then "init unbound" else "init ok") ++ sp (showThreads cfg.n aff pn)
+      | b => showInit cfg.n b
+    if implCmd != cmdExp then s!"case {c.id} reject 0 [model '{cmdExp}' impl '{implCmd}'] ; {monS}"
+    else if tl != topoExp then s!"case {c.id} reject 0 [topology: model '{topoExp}' impl '{tl}'] ; {monS}"
+    else if implInit != initExp then s!"case {c.id} reject 1 [model '{initExp}' impl '{implInit}'] ; {monS}"
+    else s!"case {c.id} accept 2 ; final ok ; {monS}"
+
 def runCase (c : Case) : String :=
   if c.get "kind" == "live" then runLive c else
+  if c.get "kind" == "cmd" then runCmd c else
   let (t, np) := parseTopo (c.get "topo")
   let mode := c.get "mode"
   let n := c.getNat "n"
@@ -247,7 +312,10 @@ def runCase (c : Case) : String :=
   let modelDec := match md with
     | some m => showDec n (decode m cfg)
     | none => "dec skip"
-  let modelInit := if mode == "none" then showInit n (affInit none cfg) else
+  let modelInit := if mode == "none" then
+      (match affInitMasks none cfg with
+       | .bound aff pn => "init unbound" ++ sp (showThreads n aff pn)
+       | b => showInit n b) else
     match md with
     | some m => showInit n (affInit (some m) cfg)
     | none => "init ?"
